@@ -41,8 +41,21 @@ structure St where
   stop : Bool := false     -- early return (NUL terminates)
   deriving Repr
 
+/-- the part of the state a decoding decision may change: anomaly flags and expected status -/
+structure FS where
+  flags : Nat
+  status : Int
+  deriving Repr, DecidableEq
+
+/-- what one loop iteration does with the output -/
+inductive Act where
+  | emit (c : UInt8) (skip : Nat)   -- write one byte (after the per-byte transforms), consume `skip` following bytes too
+  | drop                             -- write nothing, consume the current byte only
+  | stop                             -- terminate the string here
+  deriving Repr, DecidableEq
+
 /-- decode_u_encoding_path: four hex digits h1..h4 -/
-def decodeUPath (cfg : DecoderCfg) (h1 h2 h3 h4 : UInt8) (s : St) : UInt8 × St :=
+def decodeUPath (cfg : DecoderCfg) (h1 h2 h3 h4 : UInt8) (s : FS) : UInt8 × FS :=
   let c1 := x2c h1 h2
   let c2 := x2c h3 h4
   let (r, s) :=
@@ -66,13 +79,11 @@ def emitPath (cfg : DecoderCfg) (c : UInt8) (s : St) : St :=
     else { s with out := c :: s.out, prevSep := false }
   else { s with out := c :: s.out }
 
-def invalidEnc (cfg : DecoderCfg) (s : St) : St :=
-  { s with flags := setFlag s.flags PATH_INVALID_ENCODING,
-           status := unwanted cfg.urlEncodingInvalidUnwanted s.status }
+def invalidEnc (cfg : DecoderCfg) (s : FS) : FS :=
+  { flags := setFlag s.flags PATH_INVALID_ENCODING, status := unwanted cfg.urlEncodingInvalidUnwanted s.status }
 
-/-- one iteration of the loop of htp_decode_path_inplace at byte `c` followed by `tl`.
-    Returns the new state and how many FOLLOWING bytes the iteration also consumed. -/
-def pathStep (cfg : DecoderCfg) (c : UInt8) (tl : Bytes) (s : St) : St × Nat :=
+/-- the decision of one iteration of htp_decode_path_inplace at byte `c` followed by `tl` -/
+def pathDecide (cfg : DecoderCfg) (c : UInt8) (tl : Bytes) (s : FS) : FS × Act :=
   if c == 0x25 then
     match tl with
     | a :: b :: more =>
@@ -85,48 +96,59 @@ def pathStep (cfg : DecoderCfg) (c : UInt8) (tl : Bytes) (s : St) : St × Nat :=
           if cIsxdigit b && cIsxdigit h2 && cIsxdigit h3 && cIsxdigit h4 then
             let (r, s) := decodeUPath cfg b h2 h3 h4 s
             let s := if r == 0 then
-                { s with flags := setFlag s.flags PATH_ENCODED_NUL,
-                         status := unwanted cfg.nulEncodedUnwanted s.status } else s
-            (emitPath cfg r s, 5)
+                { flags := setFlag s.flags PATH_ENCODED_NUL, status := unwanted cfg.nulEncodedUnwanted s.status } else s
+            (s, .emit r 5)
           else
             let s := invalidEnc cfg s
             match handling cfg with
-            | .remove => (s, 0)
-            | .preserve => (emitPath cfg 0x25 s, 0)
-            | .process => let (r, s) := decodeUPath cfg b h2 h3 h4 s; (emitPath cfg r s, 5)
+            | .remove => (s, .drop)
+            | .preserve => (s, .emit 0x25 0)
+            | .process => let (r, s) := decodeUPath cfg b h2 h3 h4 s; (s, .emit r 5)
         | _ =>
           let s := invalidEnc cfg s
           match handling cfg with
-          | .remove => (s, 0)
-          | _ => (emitPath cfg 0x25 s, 0)
+          | .remove => (s, .drop)
+          | _ => (s, .emit 0x25 0)
       else
         if cIsxdigit a && cIsxdigit b then
           let r := x2c a b
           let s := if r == 0 then
-              { s with flags := setFlag s.flags PATH_ENCODED_NUL,
-                       status := unwanted cfg.nulEncodedUnwanted s.status } else s
-          if r == 0 && cfg.nulEncodedTerminates then ({ s with stop := true }, 0)
+              { flags := setFlag s.flags PATH_ENCODED_NUL, status := unwanted cfg.nulEncodedUnwanted s.status } else s
+          if r == 0 && cfg.nulEncodedTerminates then (s, .stop)
           else if r == 0x2f || (cfg.backslashConvertSlashes && r == 0x5c) then
-            let s := { s with flags := setFlag s.flags PATH_ENCODED_SEPARATOR,
-                              status := unwanted cfg.pathSeparatorsEncodedUnwanted s.status }
-            if cfg.pathSeparatorsDecode then (emitPath cfg r s, 2) else (emitPath cfg 0x25 s, 0)
-          else (emitPath cfg r s, 2)
+            let s := { flags := setFlag s.flags PATH_ENCODED_SEPARATOR,
+                       status := unwanted cfg.pathSeparatorsEncodedUnwanted s.status }
+            if cfg.pathSeparatorsDecode then (s, .emit r 2) else (s, .emit 0x25 0)
+          else (s, .emit r 2)
         else
           let s := invalidEnc cfg s
           match handling cfg with
-          | .remove => (s, 0)
-          | .preserve => (emitPath cfg 0x25 s, 0)
-          | .process => (emitPath cfg (x2c a b) s, 2)
+          | .remove => (s, .drop)
+          | .preserve => (s, .emit 0x25 0)
+          | .process => (s, .emit (x2c a b) 2)
     | _ =>
       let s := invalidEnc cfg s
       match handling cfg with
-      | .remove => (s, 0)
-      | _ => (emitPath cfg 0x25 s, 0)
+      | .remove => (s, .drop)
+      | _ => (s, .emit 0x25 0)
   else
     if c == 0 then
       let s := { s with status := unwanted cfg.nulRawUnwanted s.status }
-      if cfg.nulRawTerminates then ({ s with stop := true }, 0) else (emitPath cfg c s, 0)
-    else (emitPath cfg c s, 0)
+      if cfg.nulRawTerminates then (s, .stop) else (s, .emit c 0)
+    else (s, .emit c 0)
+
+/-- carry out a decision: the only place where the path decoder writes output -/
+def applyPath (cfg : DecoderCfg) (s : St) (d : FS × Act) : St × Nat :=
+  let s := { s with flags := d.1.flags, status := d.1.status }
+  match d.2 with
+  | .emit c k => (emitPath cfg c s, k)
+  | .drop => (s, 0)
+  | .stop => ({ s with stop := true }, 0)
+
+/-- one iteration of the loop of htp_decode_path_inplace at byte `c` followed by `tl`.
+    Returns the new state and how many FOLLOWING bytes the iteration also consumed. -/
+def pathStep (cfg : DecoderCfg) (c : UInt8) (tl : Bytes) (s : St) : St × Nat :=
+  applyPath cfg s (pathDecide cfg c tl { flags := s.flags, status := s.status })
 
 def pathLoop (cfg : DecoderCfg) : Bytes → Nat → St → St
   | [], _, s => s
@@ -144,7 +166,7 @@ def decodePath (cfg : DecoderCfg) (input : Bytes) (flags : Nat) (status : Int) :
 /-! ### htp_urldecode_inplace_ex -/
 
 /-- decode_u_encoding_params -/
-def decodeUParams (cfg : DecoderCfg) (h1 h2 h3 h4 : UInt8) (s : St) : UInt8 × St :=
+def decodeUParams (cfg : DecoderCfg) (h1 h2 h3 h4 : UInt8) (s : FS) : UInt8 × FS :=
   let c1 := x2c h1 h2
   let c2 := x2c h3 h4
   if c1 == 0 then (c2, { s with flags := setFlag s.flags URLEN_OVERLONG_U })
@@ -152,19 +174,17 @@ def decodeUParams (cfg : DecoderCfg) (h1 h2 h3 h4 : UInt8) (s : St) : UInt8 × S
     let s := if c1 == 0xff && c2 ≤ 0xef then { s with flags := setFlag s.flags URLEN_HALF_FULL_RANGE } else s
     (bestfitLookup c1.toNat c2.toNat (UInt8.ofNat cfg.bestfitReplacementByte) bestfit1252, s)
 
-def invalidEncU (cfg : DecoderCfg) (s : St) : St :=
-  { s with flags := setFlag s.flags URLEN_INVALID_ENCODING,
-           status := unwanted cfg.urlEncodingInvalidUnwanted s.status }
+def invalidEncU (cfg : DecoderCfg) (s : FS) : FS :=
+  { flags := setFlag s.flags URLEN_INVALID_ENCODING, status := unwanted cfg.urlEncodingInvalidUnwanted s.status }
 
 /-- tail of the `%` branch: "Did we get an encoded NUL byte?" then store -/
-def emitPct (cfg : DecoderCfg) (c : UInt8) (s : St) : St :=
+def pctAct (cfg : DecoderCfg) (c : UInt8) (k : Nat) (s : FS) : FS × Act :=
   if c == 0 then
-    let s := { s with status := unwanted cfg.nulEncodedUnwanted s.status,
-                      flags := setFlag s.flags URLEN_ENCODED_NUL }
-    if cfg.nulEncodedTerminates then { s with stop := true } else { s with out := c :: s.out }
-  else { s with out := c :: s.out }
+    let s := { flags := setFlag s.flags URLEN_ENCODED_NUL, status := unwanted cfg.nulEncodedUnwanted s.status }
+    if cfg.nulEncodedTerminates then (s, .stop) else (s, .emit c k)
+  else (s, .emit c k)
 
-def urlStep (cfg : DecoderCfg) (c : UInt8) (tl : Bytes) (s : St) : St × Nat :=
+def urlDecide (cfg : DecoderCfg) (c : UInt8) (tl : Bytes) (s : FS) : FS × Act :=
   if c == 0x25 then
     match tl with
     | a :: b :: more =>
@@ -174,39 +194,49 @@ def urlStep (cfg : DecoderCfg) (c : UInt8) (tl : Bytes) (s : St) : St × Nat :=
         | h2 :: h3 :: h4 :: _ =>
           if cIsxdigit b && cIsxdigit h2 && cIsxdigit h3 && cIsxdigit h4 then
             let (r, s) := decodeUParams cfg b h2 h3 h4 s
-            (emitPct cfg r s, 5)
+            pctAct cfg r 5 s
           else
             let s := invalidEncU cfg s
             match handling cfg with
-            | .remove => (s, 0)
-            | .preserve => (emitPct cfg 0x25 s, 0)
-            | .process => let (r, s) := decodeUParams cfg b h2 h3 h4 s; (emitPct cfg r s, 5)
+            | .remove => (s, .drop)
+            | .preserve => pctAct cfg 0x25 0 s
+            | .process => let (r, s) := decodeUParams cfg b h2 h3 h4 s; pctAct cfg r 5 s
         | _ =>
           let s := invalidEncU cfg s
           match handling cfg with
-          | .remove => (s, 0)
-          | _ => (emitPct cfg 0x25 s, 0)
+          | .remove => (s, .drop)
+          | _ => pctAct cfg 0x25 0 s
       else
-        if cIsxdigit a && cIsxdigit b then (emitPct cfg (x2c a b) s, 2)
+        if cIsxdigit a && cIsxdigit b then pctAct cfg (x2c a b) 2 s
         else
           let s := invalidEncU cfg s
           match handling cfg with
-          | .remove => (s, 0)
-          | .preserve => (emitPct cfg 0x25 s, 0)
-          | .process => (emitPct cfg (x2c a b) s, 2)
+          | .remove => (s, .drop)
+          | .preserve => pctAct cfg 0x25 0 s
+          | .process => pctAct cfg (x2c a b) 2 s
     | _ =>
       let s := invalidEncU cfg s
       match handling cfg with
-      | .remove => (s, 0)
-      | _ => (emitPct cfg 0x25 s, 0)
+      | .remove => (s, .drop)
+      | _ => pctAct cfg 0x25 0 s
   else if c == 0x2b then
-    ({ s with out := (if cfg.plusspaceDecode then 0x20 else c) :: s.out }, 0)
+    (s, .emit (if cfg.plusspaceDecode then 0x20 else c) 0)
   else
     if c == 0 then
-      let s := { s with status := unwanted cfg.nulRawUnwanted s.status,
-                        flags := setFlag s.flags URLEN_RAW_NUL }
-      if cfg.nulRawTerminates then ({ s with stop := true }, 0) else ({ s with out := c :: s.out }, 0)
-    else ({ s with out := c :: s.out }, 0)
+      let s := { flags := setFlag s.flags URLEN_RAW_NUL, status := unwanted cfg.nulRawUnwanted s.status }
+      if cfg.nulRawTerminates then (s, .stop) else (s, .emit c 0)
+    else (s, .emit c 0)
+
+/-- carry out a decision of the generic decoder: bytes are stored as they are -/
+def applyUrl (s : St) (d : FS × Act) : St × Nat :=
+  let s := { s with flags := d.1.flags, status := d.1.status }
+  match d.2 with
+  | .emit c k => ({ s with out := c :: s.out }, k)
+  | .drop => (s, 0)
+  | .stop => ({ s with stop := true }, 0)
+
+def urlStep (cfg : DecoderCfg) (c : UInt8) (tl : Bytes) (s : St) : St × Nat :=
+  applyUrl s (urlDecide cfg c tl { flags := s.flags, status := s.status })
 
 def urlLoop (cfg : DecoderCfg) : Bytes → Nat → St → St
   | [], _, s => s
